@@ -7,7 +7,9 @@ unset GOSUMDB
 mkdir -p bin work evidence
 (cd tools/go2lean && go build -o ../../bin/go2lean .)
 bin/go2lean /repo tools/go2lean/targets.json lean/F3/Gen/Core.lean
-(cd lean && lake build F3 f3driver)
+python3 -c "import sys; sys.path.insert(0, \".\"); from checks import common; common.gen_lakefile()"
+for p in lean/F3/Props/*.lean; do (cd lean && lake build F3.Props.$(basename $p .lean)) || echo "WARN: $p does not build"; done
+for d in lean/Driver/*.lean; do a=$(basename $d .lean); [ "$a" = Util ] || (cd lean && lake build f3d_$(echo $a | tr A-Z a-z)); done
 # warm the Go build cache for the harnesses (compiles go-f3 with the verif tag)
 python3 - <<'PY'
 import sys, os
